@@ -76,3 +76,22 @@ Theorem C12_leaf_position_without_finally_refuted : exists st l sopt x s vd s',
   pytree_check_flags st false l sopt x s = (vd, s') /\ ps_path s = None /\ ps_path s' <> None.
 Proof. exact leaf_position_without_finally_refuted. Qed.
 Print Assumptions C12_leaf_position_without_finally_refuted.
+
+(* the accessors of the '?'-leaf position and of the flatten mode, as regenerated from jaxtyping/_storage.py on every run
+   (gen/StorageSrc.v interpreted by model/SL.v), read and write exactly the ps_path / ps_flat components the theorems above
+   speak about *)
+From JT Require Import model.SL gen.StorageSrc proofs.SLFacts.
+Theorem C12_transient_state_accessors_as_in_source : forall s, wf_cells s ->
+  (forall r s', run_acc storage_src "clear_treepath_memo" [] s = Some (r, s') ->
+     r = SRVal SVNone /\ abs_store s' = with_path (abs_store s) None /\ wf_cells s') /\
+  (forall r s', run_acc storage_src "get_treepath_memo" [] s = Some (r, s') ->
+     s' = s /\ r = match ps_path (abs_store s) with Some p => SRVal (SVStr p) | None => SRExn XAnnotation end) /\
+  (forall (b : bool) r s', run_acc storage_src (if b then "set_treeflatten_memo" else "clear_treeflatten_memo") [] s = Some (r, s') ->
+     r = SRVal SVNone /\ abs_store s' = with_flat (abs_store s) b /\ wf_cells s') /\
+  (forall r s', run_acc storage_src "get_treeflatten_memo" [] s = Some (r, s') ->
+     s' = s /\ r = SRVal (SVBool (ps_flat (abs_store s)))).
+Proof.
+  exact (fun s W => conj (fun r s' => clear_treepath_refines s r s' W) (conj (fun r s' => get_treepath_refines s r s' W)
+                     (conj (fun b r s' => set_treeflatten_refines s b r s' W) (fun r s' => get_treeflatten_refines s r s' W)))).
+Qed.
+Print Assumptions C12_transient_state_accessors_as_in_source.
